@@ -65,7 +65,26 @@ class Counter:
                     n += 1
                 elif m.callee == "fprintf" and len(m.args()) >= 2 and m.args()[1].strip().k == "StringLiteral":
                     n += len(FLOATCONV.findall(m.args()[1].strip().val))
+                elif m.callee in Counter.HELPERS:
+                    n += Counter.helper_fields(m.callee)
         return n
+
+    # static helpers of the saver that print fields themselves (e.g. an extracted print_angle()): the number of fields
+    # one call prints is the count of its own body, which must be the same constant on every path
+    HELPERS = {}
+    _HELPER_MEMO = {}
+
+    @staticmethod
+    def helper_fields(name):
+        if name in Counter._HELPER_MEMO:
+            return Counter._HELPER_MEMO[name]
+        Counter._HELPER_MEMO[name] = 0      # recursion guard
+        g = Counter.HELPERS[name]
+        c = Counter({}, {})
+        p = c.count(g.body)
+        v = p.const_value() if p.is_const() and not c.ambiguous else 0
+        Counter._HELPER_MEMO[name] = int(v)
+        return int(v)
 
     def poly_of(self, e):
         e = e.strip()
@@ -337,7 +356,17 @@ def _reachable_without(cfg, src, dst, avoid):
     return False
 
 
+def _register_helpers(P):
+    Counter.HELPERS = {}
+    Counter._HELPER_MEMO = {}
+    for g in P.by_file.get(SAVE, []):
+        if g.body is not None and g.static and g.name not in ("print_value", "vnadata_save_common") and g.ret == "void":
+            if any(c.callee in ("print_value", "fprintf") for c in g.calls()):
+                Counter.HELPERS[g.name] = g
+
+
 def run(P, tier="quick"):
+    _register_helpers(P)
     S = compute_fail_summaries(P)
     R22 = RuleResult("R22", "after the point where vnadata_cksave returns success, vnadata_save_common takes no failure edge "
                      "of a callee that can report VNAERR_USAGE: what cksave accepts, save does not refuse for its arguments", floor=5)
